@@ -184,6 +184,15 @@ class C03(QProp):
                 continue
             items.append((Q.Cast(Q.Qty("7", t), base), [], "sweep-source"))
             items.append((Q.Cast(Q.Qty("7", base), t), [], "sweep-target"))
+        # "an SI prefix is exactly its power of ten" also on the temperature scales: a prefixed
+        # scale converts like the unprefixed one applied to 10^p times the magnitude
+        kel = [w for w in v.words if w[2] == "Kelvin"]
+        allt = v.affine_words + v.affine_prefixed + kel
+        tstep = 1 if tier != "quick" else max(1, len(allt) // 30)
+        for w in allt[::tstep]:
+            for t in (v.affine_words + [k for k in kel if k[0] == ""]):
+                items.append((Q.Cast(Q.Qty("1500", [(w, 1)]), [(t, 1)]), [], "prefix-temperature-source"))
+                items.append((Q.Cast(Q.Qty("5", [(t, 1)]), [(w, 1)]), [], "prefix-temperature-target"))
         n = 1200 if tier == "quick" else 30000
         for i in range(n):
             u1, u2 = _pair(v, rng, True)
@@ -261,6 +270,19 @@ class C09(QProp):
             for b in names:
                 for x in vals if tier == "quick" else vals + [Q.small_value(rng) for _ in range(20)]:
                     items.append((Q.Cast(Q.Qty(x, scales[a]), scales[b]), [], "pairs"))
+        # a scale with an SI prefix (m°C, k°F, mK): as source, as target, and in chains
+        pk = [w for w in v.words if w[2] == "Kelvin" and w[0] != ""]
+        pref = v.affine_prefixed + pk
+        pstep = 1 if tier != "quick" else max(1, len(pref) // 24)
+        for w in pref[::pstep]:
+            for b in names:
+                for x in ("5", "-268150", "1500", "0.25"):
+                    items.append((Q.Cast(Q.Qty(x, [(w, 1)]), scales[b]), [], "pairs-prefixed-source"))
+                    items.append((Q.Cast(Q.Qty(x, scales[b]), [(w, 1)]), [], "pairs-prefixed-target"))
+                    items.append((Q.Cast(G.Paren(Q.Cast(Q.Qty(x, scales[b]), [(w, 1)])), scales[b]), [], "prefixed-round-trip"))
+        for _ in range(60 if tier == "quick" else 2000):
+            w1, w2 = rng.choice(pref), rng.choice(pref)
+            items.append((Q.Cast(Q.Qty(Q.small_value(rng), [(w1, 1)]), [(w2, 1)]), [], "pairs-prefixed-both"))
         n = 300 if tier == "quick" else 5000
         for _ in range(n):
             chain = [rng.choice(names) for _ in range(rng.range(2, 4))]
